@@ -263,3 +263,105 @@ class log_config(object):
             lg.handlers = handlers
             lg.propagate = prop
         return False
+
+
+# --------------------------------------------------------------------------- simulated clock
+class sim_clock(object):
+    """time.time / monotonic / perf_counter (and their _ns forms) read a simulated clock for the duration of a run:
+    it starts at a fixed instant, advances one microsecond per reading, and can jump (forwards or backwards) at the
+    k-th reading -- a suspended VM, an NTP step, a very slow machine.  Code that never reads a clock never notices."""
+
+    NAMES = ("time", "monotonic", "perf_counter", "process_time")
+
+    def __init__(self, spec):
+        self.spec = spec or {}
+        self.now = 1.7e9
+        self.reads = 0
+        self.jumped = 0
+
+    def _read(self):
+        self.reads += 1
+        if self.spec and self.reads == int(self.spec.get("jump_at", 0)):
+            self.now += float(self.spec.get("by", 0.0))
+            self.jumped += 1
+        self.now += 1e-6
+        return self.now
+
+    def __enter__(self):
+        import time
+        import datetime as _dt
+        import types
+        self.time = time
+        self.saved = {}
+        clock = self
+
+        class SimDateTime(_dt.datetime):
+            """datetime.datetime whose now()/utcnow()/today() read the simulated clock"""
+            @classmethod
+            def now(cls, tz=None):
+                return _dt.datetime.fromtimestamp(clock._read(), tz)
+
+            @classmethod
+            def utcnow(cls):
+                return _dt.datetime.fromtimestamp(clock._read(), _dt.timezone.utc).replace(tzinfo=None)
+
+            @classmethod
+            def today(cls):
+                return _dt.datetime.fromtimestamp(clock._read())
+
+        proxy = types.SimpleNamespace(**{k: getattr(_dt, k) for k in dir(_dt) if not k.startswith("__")})
+        proxy.datetime = SimDateTime
+        # datetime.now() reads the system clock in C; the only seam is the name the code under test bound at import
+        self.dt_patched = []
+        for mname in sorted(m for m in list(sys.modules) if m == "xfab" or m.startswith("xfab.")):
+            mod = sys.modules.get(mname)
+            if mod is None:
+                continue
+            for k, v in list(vars(mod).items()):
+                if v is _dt.datetime:
+                    self.dt_patched.append((mod, k, v))
+                    setattr(mod, k, SimDateTime)
+                elif v is _dt:
+                    self.dt_patched.append((mod, k, v))
+                    setattr(mod, k, proxy)
+        for n in self.NAMES:
+            if hasattr(time, n):
+                self.saved[n] = getattr(time, n)
+                setattr(time, n, self._read)
+            if hasattr(time, n + "_ns"):
+                self.saved[n + "_ns"] = getattr(time, n + "_ns")
+                setattr(time, n + "_ns", lambda: int(self._read() * 1e9))
+        return self
+
+    def __exit__(self, *a):
+        for n, f in self.saved.items():
+            setattr(self.time, n, f)
+        for mod, k, v in getattr(self, "dt_patched", []):
+            setattr(mod, k, v)
+        return False
+
+
+def gen_clock(rng):
+    """trace element for sim_clock: mostly no jump"""
+    if rng.chance(0.25):
+        return {"jump_at": rng.choice([2, 2, 3, 4, 5, 8, 13, 40, 200]),
+                "by": rng.choice([61.0, 3600.0, 86400.0, -3600.0, -2.0, -0.5, 1e9])}
+    return None
+
+
+# --------------------------------------------------------------------------- environment at import time
+IMPORT_ENVS = [{"PYTHONOPTIMIZE": "0"}, {"LC_ALL": "C", "LANG": "C"}, {"TZ": "UTC+12"}, {"PYTHONDONTWRITEBYTECODE": ""},
+               {"OMP_NUM_THREADS": "4"}, {"PYTHONOPTIMIZE": ""}, {"HOME": "/nonexistent"}]
+
+
+def fresh_import_run(env, fn, *args):
+    """Run fn(*args) in a forked child in which the code under test is imported AGAIN under a modified environment
+    (what a library reads from os.environ at import time is process configuration like any other)."""
+    def child():
+        for k, v in env.items():
+            os.environ[k] = v
+        for m in [m for m in list(sys.modules) if m == "xfab" or m.startswith("xfab.")]:
+            del sys.modules[m]
+        import_xfab()
+        return fn(*args)
+    return isolated(child)
